@@ -74,6 +74,8 @@ def permute_spec(spec, order, names=None):
     new_types = [names[old[i]] for i in order]
     s = {'types': new_types, 'kT': spec['kT'], 'domain': dict(spec['domain']),
          'density': {names[t]: spec['density'][t] for t in old}, 'diameter': {names[t]: spec['diameter'][t] for t in old}, 'pairs': {}}
+    if spec.get('style'):
+        s['style'] = spec['style']
     for a, b in build.pairs_of(old):
         p = spec['pairs'][build.pair_key(old, a, b)]
         s['pairs'][build.pair_key(new_types, names[a], names[b])] = copy.deepcopy(p)
@@ -300,6 +302,8 @@ def gen_base(b):
 
 def case_base(rec, c):
     base = gen_base(c['base'])
+    if c.get('style'):
+        base['style'] = c['style']
     dom = build.make_domain(base['domain'])
     if not build.domain_ok(dom):
         rec.count('skipped_preconditions')
@@ -385,6 +389,11 @@ def run(rec, tier, seed):
     for tr in hs:
         for N, rp, rs in ([(8, 0.5, 0.02), (4, 0.3, 0.2)] if quick else [(8, 0.5, 0.02), (4, 0.3, 0.2), (8, 0.2, 0.4), (6, 0.4, 0.1)]):
             cases.append({'base': ['homosolv', tr, 1.0, rp, rs, N], 'reforms': [['diblock+solvent'], ['perm', [1, 0]]]})
+    # the same kind on every pair of a two-type base, tables filled by ONE statement; the permuted system is built the same
+    # way, so an object shared between pairs makes the result depend on the order of the type list
+    for kind in kinds:
+        for st in ('bulk-list', 'bulk-setunset'):
+            cases.append({'base': ['rank2', [kind, kind, kind], 0, 1.0], 'reforms': [['perm', [1, 0]]], 'style': st})
     core.pmap(_worker, cases, rec)
     att, conv = rec.c.get('bases_attempted', 0), rec.c.get('bases_converged', 0)
     rec.note('attempted/converged', [att, conv])
